@@ -193,4 +193,10 @@ def cached_node_property(name):''')]),
     dict(name="twin: original consulted after the copy only filled its caches", kind="twin", file=CORE,
          old="        tree.contract_stats()\n        # ... as well as the involved indices and legs of every intermediate,",
          new="        tree.contract_stats()\n        _ = self.sliced_inds\n        # ... as well as the involved indices and legs of every intermediate,"),
+    dict(name="F16-reverted: index orders re-assigned with the old recipes cached", kind="break", file=CORE,
+         old="        else:\n            # keep the current index orders as the starting point, but drop\n            # everything derived from them, which the re-sorting invalidates\n            for node in self.children:\n                for k in (\"einsum_eq\", \"tensordot_axes\", \"tensordot_perm\"):\n                    self.info[node].pop(k, None)\n",
+         new="", expect=("C02-REORDER", "sort_contraction_indices")),
+    dict(name="twin: sort always resets first", kind="twin", file=CORE,
+         old="        if reset:\n            self.reset_contraction_indices()\n        else:\n            # keep the current index orders as the starting point, but drop\n            # everything derived from them, which the re-sorting invalidates\n            for node in self.children:\n                for k in (\"einsum_eq\", \"tensordot_axes\", \"tensordot_perm\"):\n                    self.info[node].pop(k, None)\n",
+         new="        self.reset_contraction_indices()\n"),
 ]
